@@ -41,7 +41,14 @@ type LoopSum struct {
 	Pos    token.Pos
 }
 
+type LenCheck struct {
+	What   string
+	OK     bool
+	Detail string
+}
+
 type Summary struct {
+	LenChecks []LenCheck // make([]T, n) filled by index in a counting loop: n vs trip count
 	LocalInit map[string]*Term // initial value of address-taken locals that are assigned again later
 	Fn        *ssa.Function
 	Results   []*Term
